@@ -78,7 +78,7 @@ man = {
    "enable": "rustflags in /verif/harness/.cargo/config.toml: --cfg slotted_egraphs_verif --check-cfg cfg(slotted_egraphs_verif); the harness depends on /repo by path and patches slotted-egraphs-derive to /repo/slotted-egraphs-derive",
    "baseline_off_cmd": "cd /repo && cargo test --workspace --no-fail-fast --offline",
    "source_commits": ["ec9eabe"],
-   "fix_commits": ["3e314d3", "4dcce54", "d4651f6", "1e93cc9", "b27661e", "b251537", "cfcbc3c", "0360727", "c3020f8", "2a38624", "2db9378", "9af976a", "429dfd3", "20cc4b9"],
+   "fix_commits": ["5afd426", "640e671", "3e314d3", "4dcce54", "d4651f6", "1e93cc9", "b27661e", "b251537", "cfcbc3c", "0360727", "c3020f8", "2a38624", "2db9378", "9af976a", "429dfd3", "20cc4b9"],
    "add_only": True,
  },
  "engines": [
@@ -86,6 +86,10 @@ man = {
     "kind_free_text": "explicit TLA+ specification (spec/*.tla) model-checked by TLC; REPLAY tables emitted per state"},
    {"name": "tlc-egraphop", "path": "spec/EGraphOp.tla", "serves_properties": ["C08", "C12"],
     "kind_free_text": "operational TLA+ model of the e-graph algorithm, model-checked by TLC to refine SlottedCC (generated root with the REPLAY table as constant)"},
+   {"name": "tlc-extractop", "path": "spec/ExtractOp.tla", "serves_properties": ["C06"],
+    "kind_free_text": "operational TLA+ model of the extraction work list, model-checked on all small e-graphs against the least-fixpoint cost"},
+   {"name": "tlc-groupop", "path": "spec/GroupOp.tla", "serves_properties": ["C10"],
+    "kind_free_text": "operational TLA+ model of the stabiliser chain, model-checked to refine the brute-force subgroup closure"},
    {"name": "cc_replay", "path": "harness/src/bin/cc_replay.rs", "serves_properties": list(CHECKS.keys()),
     "kind_free_text": "Rust replayer: drives the real EGraph along every linearisation of every TLC state and compares observations"},
  ],
